@@ -13,7 +13,7 @@
     IsPasswordInitialized are two boolean parameters of the accepting path.
     Bugs included; no proofs in this file. *)
 From Coq Require Import String Ascii List Bool Arith NArith ZArith.
-From Raven Require Import Base.GoStr Base.GoStrB64 Base.GoStrJson.
+From Raven Require Import Base.GoStr Base.GoStrB64 Base.GoStrJson Model.CmdTokenizer.
 Import ListNotations.
 Local Open Scope char_scope.
 
@@ -105,14 +105,14 @@ Inductive creds :=
     [authed] = state.Authenticated when the line arrives.
     [Direct R_NONE]: the line is not dispatched to HandleLogin. *)
 Definition login_creds (authed tls : bool) (line : str) : creds :=
-  let parts := fields (trim_space line) in
+  let parts := split_command_line (trim_space line) in
   match parts with
   | _ :: cmd :: rest =>
       if str_eqb (to_upper cmd) (S_ "LOGIN") then
         match rest with
         | a :: b :: _ =>
             if authed then Direct R_BAD      (* "BAD Already authenticated" *)
-            else if tls then Creds (trim a [DQ]) (trim b [DQ]) else Direct R_NO
+            else if tls then Creds (parse_quoted a) (parse_quoted b) else Direct R_NO
         | _ => Direct R_BAD
         end
       else Direct R_NONE
